@@ -25,7 +25,7 @@ func init() {
 	hx.Register(&hx.Prop{
 		ID:    "C01",
 		Level: "exploration",
-		Rule: "PE layouts from the product {PE32,PE32+} x e_lfanew{0x40,0x48,0x80} x section count 0..n x every file order vs header order x raw size{0,8,13} x gap{0,4} x SizeOfHeaders slack{0,16} x trailing length 0..9 x certificate table{none, one entry, two entries} (+ two layouts with a 40000-byte section); " +
+		Rule: "PE layouts from the product {PE32,PE32+} x e_lfanew{0x40,0x48,0x80} x section count 0..n x every file order vs header order x raw size{0,8,13} x gap{0,4} x SizeOfHeaders slack{0,16} x trailing length 0..9 x certificate table{none, one entry, two entries} (+ two layouts with a 40000-byte section, layouts with NumberOfRvaAndSizes {5,6,10,15}, layouts carrying a COFF symbol table); " +
 			"per layout the library digest is compared with the from-the-specification digest of the image zero-padded to 8, then every byte position is changed (XOR 0xFF; thorough also XOR 0x01) and both sides are run again: if the reference still classifies the image as well-formed the digests must agree " +
 			"(covered byte => both change identically, excluded byte => both unchanged); plus the certificate-table-stripped twin, the repository's binaries, and the positional reader against slicing for all part-size vectors over {1,2,3} (<=4 parts, optionally followed by one empty part as the parser builds for empty trailing data) x all (offset,length). " +
 			"non-trivial = library and reference both produced a digest for the (mutated) image and they were compared; distinct = distinct image bytes",
@@ -115,6 +115,21 @@ func c01Layouts(tier string, f func(i int, l pegen.Layout)) {
 	for _, plus := range []bool{true, false} {
 		f(i, pegen.Layout{PE32Plus: plus, Lfanew: 0x80, Secs: []pegen.Sec{{RawSize: 8}, {RawSize: 13, Gap: 4}}, FileOrder: []int{1, 0}, Trailing: 3, Big: true})
 		i++
+		// fewer data directories than 16 (the certificate entry is index 4, so at least 5), and a COFF symbol table
+		for _, nr := range []int{5, 6, 10, 15} {
+			for _, ce := range certs {
+				for _, tr := range []int{0, 3} {
+					f(i, pegen.Layout{PE32Plus: plus, Lfanew: 0x40, Secs: []pegen.Sec{{RawSize: 13}, {RawSize: 8}}, FileOrder: []int{1, 0}, Trailing: tr, Certs: ce, NumRva: nr})
+					i++
+				}
+			}
+		}
+		for _, ns := range []int{1, 3} {
+			for _, ce := range certs {
+				f(i, pegen.Layout{PE32Plus: plus, Lfanew: 0x48, Secs: []pegen.Sec{{RawSize: 8}, {RawSize: 13}}, Trailing: 2, Certs: ce, Symbols: ns})
+				i++
+			}
+		}
 	}
 }
 
@@ -135,7 +150,7 @@ func c01Describe(l pegen.Layout) string {
 	if l.PE32Plus {
 		f = "PE32+"
 	}
-	return fmt.Sprintf("%s lfanew=%#x secs=%v order=%v slack=%d trailing=%d certs=%v big=%v", f, l.Lfanew, l.Secs, l.FileOrder, l.HdrSlack, l.Trailing, l.Certs, l.Big)
+	return fmt.Sprintf("%s lfanew=%#x secs=%v order=%v slack=%d trailing=%d certs=%v big=%v numrva=%d symbols=%d", f, l.Lfanew, l.Secs, l.FileOrder, l.HdrSlack, l.Trailing, l.Certs, l.Big, l.NumRva, l.Symbols)
 }
 
 // region names the part of the image a byte offset lies in (for signatures).
